@@ -896,3 +896,6 @@ Proof.
     destruct (10 =? i) eqn:E; [apply N.eqb_eq in E; subst i; reflexivity | discriminate H].
   - split; [|discriminate]. eexists; eexists; eexists. split; [vm_compute; reflexivity | reflexivity].
 Qed.
+
+Lemma create_flag_use : shape_create_flag_use = true.
+Proof. vm_compute. reflexivity. Qed.
